@@ -364,8 +364,10 @@ def evaluate(prop, drv, cases, variants=None):
     variants = variants or prop.variants
     impl_outs = pmap_impl(prop, cases)
     # a timeout under load is retried serially once with a doubled limit before it counts
+    retried = 0
     for k, o in enumerate(impl_outs):
-        if o == ["IMPL-TIMEOUT"]:
+        if o == ["IMPL-TIMEOUT"] and retried < 3:   # (many timeouts are not load: do not serialise them all)
+            retried += 1
             impl_outs[k] = run_impl_safe(prop, cases[k], prop.case_timeout_s * 2)
     from_impl = getattr(prop, "model_block_from_impl", None)
     res = [dict(case=c, impl=o, agree=None, variant=None, judge=None, model=None) for c, o in zip(cases, impl_outs)]
